@@ -177,6 +177,12 @@ func buildJobs(seed int64, n int, repoWarriors string) ([]job, []*gmars.WarriorD
 			if r.Intn(4) == 0 {
 				j.kind = "smallcore"
 				j.bcfg = simCfg{M: 16, P: 2, C: 10, RL: 16, WL: 16}
+			} else if k%40 == 5 {
+				// a core larger than every preset, reused over several rounds
+				j.bcfg = simCfg{M: 9000, P: 3, C: 12, RL: 9000, WL: 9000}
+				for i := range j.offs {
+					j.offs[i] = 8990 - 70*i
+				}
 			}
 			nw := 1 + r.Intn(3)
 			for i := 0; i < nw; i++ {
